@@ -5,7 +5,7 @@ recorded in ex.trusted."""
 import re
 import z3
 
-from .model import Val, Ptr, Unsupported
+from .model import forall, add0, Val, Ptr, Unsupported
 
 NOT_HANDLED = object()
 DIVERGES = object()
@@ -112,15 +112,15 @@ def do_append(ex, st, frame, ins, args):
         if z3.is_int_value(off_s) and off_s.as_long() == 0 and n_more is not None and n_more <= 8:
             cur = src
             for j in range(n_more):
-                cur = z3.Store(cur, ln + j, z3.Select(z3.Select(h, arr2), off2 + j))
+                cur = z3.Store(cur, ln + j, z3.Select(z3.Select(h, arr2), add0(off2, j)))
             st.heaps[name] = z3.Store(h, na, cur)
         else:
             new = m.fresh('app', src.sort())
             i = z3.Int('i!app')
-            st.assume(z3.ForAll([i], z3.Implies(z3.And(0 <= i, i < ln), z3.Select(new, i) == z3.Select(src, off + i)),
+            st.assume(forall([i], z3.Implies(z3.And(0 <= i, i < ln), z3.Select(new, i) == z3.Select(src, add0(off, i))),
                                 patterns=[z3.Select(new, i)]))
             src2 = z3.Select(h, arr2)
-            st.assume(z3.ForAll([i], z3.Implies(z3.And(0 <= i, i < ln2), z3.Select(new, ln + i) == z3.Select(src2, off2 + i)),
+            st.assume(forall([i], z3.Implies(z3.And(0 <= i, i < ln2), z3.Select(new, ln + i) == z3.Select(src2, add0(off2, i))),
                                 patterns=[z3.Select(new, ln + i)]))
             st.heaps[name] = z3.Store(h, na, new)
     return Val(rt, [na, z3.IntVal(0), z3.simplify(ln + ln2)])
@@ -592,9 +592,9 @@ def contains_term(ex, st, content, off, ln, x):
     r = m.fresh('contains', m.Bool)
     wit = m.fresh('cwit', m.Int)
     # r <=> exists i. 0 <= i < ln && content[off+i] == x   (skolemised in one direction)
-    st.assume(z3.Implies(r, z3.And(0 <= wit, wit < ln, z3.Select(content, off + wit) == x)))
-    st.assume(z3.Implies(z3.Not(r), z3.ForAll([i], z3.Implies(z3.And(0 <= i, i < ln), z3.Select(content, off + i) != x),
-                                             patterns=[z3.Select(content, off + i)])))
+    st.assume(z3.Implies(r, z3.And(0 <= wit, wit < ln, z3.Select(content, add0(off, wit)) == x)))
+    st.assume(z3.Implies(z3.Not(r), forall([i], z3.Implies(z3.And(0 <= i, i < ln), z3.Select(content, add0(off, i)) != x),
+                                             patterns=[z3.Select(content, add0(off, i))])))
     return r
 
 
@@ -610,9 +610,9 @@ def slices_Reverse(ex, st, frame, ins, args):
         old = z3.Select(h, arr)
         new = m.fresh('rev', old.sort())
         i = z3.Int('i!rev')
-        st.assume(z3.ForAll([i], z3.Implies(z3.And(0 <= i, i < ln), z3.Select(new, off + i) == z3.Select(old, off + ln - 1 - i)),
-                            patterns=[z3.Select(new, off + i)]))
-        st.assume(z3.ForAll([i], z3.Implies(z3.Or(i < off, i >= off + ln), z3.Select(new, i) == z3.Select(old, i)),
+        st.assume(forall([i], z3.Implies(z3.And(0 <= i, i < ln), z3.Select(new, add0(off, i)) == z3.Select(old, add0(off, ln - 1 - i))),
+                            patterns=[z3.Select(new, add0(off, i))]))
+        st.assume(forall([i], z3.Implies(z3.Or(i < off, i >= add0(off, ln)), z3.Select(new, i) == z3.Select(old, i)),
                             patterns=[z3.Select(new, i)]))
         st.heaps[name] = z3.Store(h, arr, new)
         ex.written.add(name)
@@ -635,9 +635,9 @@ def maps_Keys(ex, st, frame, ins, args):
     i = z3.Int('i!k')
     k = z3.Const('k!k', ks)
     idx = m.fresh('keyidx', z3.ArraySort(ks, m.Int))
-    st.assume(z3.ForAll([i], z3.Implies(z3.And(0 <= i, i < n), z3.And(mv.leaves[0] != 0, z3.Select(dom, z3.Select(content, i)))),
+    st.assume(forall([i], z3.Implies(z3.And(0 <= i, i < n), z3.And(mv.leaves[0] != 0, z3.Select(dom, z3.Select(content, i)))),
                         patterns=[z3.Select(content, i)]))
-    st.assume(z3.ForAll([k], z3.Implies(z3.And(mv.leaves[0] != 0, z3.Select(dom, k)),
+    st.assume(forall([k], z3.Implies(z3.And(mv.leaves[0] != 0, z3.Select(dom, k)),
                                         z3.And(0 <= z3.Select(idx, k), z3.Select(idx, k) < n, z3.Select(content, z3.Select(idx, k)) == k)),
                         patterns=[z3.Select(dom, k)]))
     return Val(ins['t'], [arr, z3.IntVal(0), n])
